@@ -22,12 +22,13 @@ import (
 // ---- C14: every accepted schema yields Go code that builds; the generator never panics ------------------------
 
 type genCase struct {
-	Schema *schemagen.Schema `json:"schema"`
-	Layout schemagen.Layout  `json:"layout"`
-	Edit   string            `json:"edit"` // none or a structured edit that may make the schema invalid
-	EditAt int               `json:"edit_at"`
-	Args   []string          `json:"generator_args"`
-	Text   string            `json:"text,omitempty"` // literal schema (sentinels)
+	Schema  *schemagen.Schema `json:"schema"`
+	Layout  schemagen.Layout  `json:"layout"`
+	Edit    string            `json:"edit"` // none or a structured edit that may make the schema invalid
+	EditAt  int               `json:"edit_at"`
+	Args    []string          `json:"generator_args"`
+	Text    string            `json:"text,omitempty"` // literal schema (sentinels)
+	TextTL2 bool              `json:"text_is_tl2,omitempty"`
 }
 
 var hostileFieldNames = []string{"reset", "string", "read", "write", "type", "range", "func", "item", "w", "err", "tl2mask0", "fillRandom", "readJSON", "unmarshalJSON", "writeTL2", "readTL1", "tLName", "tLTag"}
@@ -216,6 +217,9 @@ func checkC14(c genCase) pbt.Result {
 		text = s.Text(c.Layout)
 	}
 	schemaFile := filepath.Join(root, "schema.tl")
+	if c.TextTL2 { // a literal TL2 schema (sentinels of findings in the TL2-origin generator paths)
+		schemaFile = filepath.Join(root, "schema.tl2")
+	}
 	os.WriteFile(schemaFile, []byte(text), 0o644)
 	outdir := filepath.Join(mod, "g")
 	args := append([]string{"--language=go", "--outdir=" + outdir, "--pkgPath=github.com/VKCOM/tl/verifrun/g/tl", "--basicPkgPath=github.com/VKCOM/tl/pkg/basictl", "--copyrightPath=/repo/COPYRIGHT"}, c.Args...)
